@@ -174,20 +174,24 @@ def stripC (s : List Char) : List Char := ((s.dropWhile isWsC).reverse.dropWhile
 
 /-- Python `int(text, 16)` on ASCII text: surrounding whitespace, one sign, an optional `0x`/`0X` (then one optional `_`),
     hex digits of either case with single interior underscores; `none` = `ValueError` -/
-def pyIntHex (t : List Char) : Option Int :=
-  let s := stripC t
-  let ns : Bool × List Char := match s with
-    | '-' :: r => (true, r)
-    | '+' :: r => (false, r)
-    | r => (false, r)
-  let body : List Char := match ns.2.map lowerCh with
-    | '0' :: 'x' :: '_' :: r => r
-    | '0' :: 'x' :: r => r
-    | r => r
-  match body with
+def signSplit : List Char → Bool × List Char
+  | '-' :: r => (true, r)
+  | '+' :: r => (false, r)
+  | r => (false, r)
+
+def dropHexPrefix : List Char → List Char
+  | '0' :: 'x' :: '_' :: r => r
+  | '0' :: 'x' :: r => r
+  | r => r
+
+def hexBodyValue : List Char → Option Nat
   | [] => none
   | '_' :: _ => none
-  | _ => (digitsValue 16 body false 0).map (fun v => if ns.1 then -(v : Int) else (v : Int))
+  | c :: r => digitsValue 16 (c :: r) false 0
+
+def pyIntHex (t : List Char) : Option Int :=
+  let ns := signSplit (stripC t)
+  (hexBodyValue (dropHexPrefix (ns.2.map lowerCh))).map (fun v => if ns.1 then -(v : Int) else (v : Int))
 
 /-- `_num_from_str`: generated length guard, `int(text, 16)`, generated `_check_number` -/
 def bcdNumFromStr (text : List Char) : PyRes Nat :=
